@@ -3,7 +3,6 @@
 package main
 
 import (
-	"flag"
 	"os"
 	"strings"
 	"time"
@@ -28,7 +27,6 @@ func thoroughRequested() bool {
 }
 
 func main() {
-	_ = flag.CommandLine
 	thorough := thoroughRequested()
 	if len(os.Args) > 1 {
 		for _, a := range os.Args {
@@ -37,18 +35,23 @@ func main() {
 			}
 		}
 	}
+	shards := 8
+	if thorough {
+		shards = 16
+	}
 	p := &vdrive.Plan{
 		Scenarios:      cmd.VerifC20Scenarios(thorough),
 		QuickBounds:    []vsched.Bound{{0, 0}, {1, 0}},
-		ThoroughBounds: []vsched.Bound{{0, 0}, {1, 0}, {1, 1}},
+		ThoroughBounds: []vsched.Bound{{0, 0}, {1, 0}},
 		PerScenario: map[string]map[string][]vsched.Bound{
-			"R,S: fail* then staged":             {"quick": {{0, 0}, {1, 0}, {1, 1}}, "thorough": {{0, 0}, {1, 0}, {2, 1}, {3, 0}}},
-			"S,R: staged* then nonstaged":        {"thorough": {{0, 0}, {1, 0}, {1, 1}, {2, 0}}},
-			"R,S: staged then any* +relisten":    {"quick": {{0, 0}}},
-			"S,R: nonstaged then any* +relisten": {"quick": {{0, 0}}},
-			"R,S: fail* then fail*":              {"thorough": {{0, 0}, {1, 0}, {2, 1}, {3, 0}}},
+			"R,S: fail* then staged":              {"quick": {{0, 0}, {1, 0}, {1, 1}}, "thorough": {{0, 0}, {1, 0}, {2, 1}, {3, 0}}},
+			"R,S: fail* then fail*":               {"thorough": {{0, 0}, {1, 0}, {2, 1}, {3, 0}}},
+			"S,R: staged* then nonstaged":         {"thorough": {{0, 0}, {1, 0}, {1, 1}}},
+			"R,S: staged* then staged* +relisten": {"thorough": {{0, 0}, {1, 0}, {1, 1}}},
+			"R,S: staged then any* +relisten":     {"quick": {{0, 0}}},
+			"S,R: nonstaged then any* +relisten":  {"quick": {{0, 0}}},
 		},
-		Shards:         8, // each worker process pays ~1 s of package initialisation (the whole dae binary)
+		Shards:         shards, // each worker process pays ~1 s of package initialisation (the whole dae binary)
 		BudgetQuick:    75 * time.Second,
 		BudgetThorough: 16 * time.Minute,
 		Finish: func(r *vlib.Run) {
@@ -57,6 +60,7 @@ func main() {
 			r.Assume("process-exit paths (termination signals, Fatalln after a failed rollback, `Listener failed; exiting`) are listed but not executed: the statement speaks about a dae that keeps running")
 			r.Assume("the previous generation is a zero control.ControlPlane (Close already run); the real startControlPlaneRetirement goroutine runs on it, its end is gated through the oldCancel callback")
 			r.Assume("the progress file is an in-memory cell behind the setRunSignalProgress/getRunSignalProgress seams (each access is one scheduling point); resetReloadProxyRuntimeState is replaced by a counter")
+			r.Assume("exploration is partitioned: in every scenario one request is explored through ALL alternatives of its class (fail / staged / nonstaged), the other requests through one canonical representative; every class takes both roles across the scenario list; the statically possible `listener == nil while reloading` branch of the main loop is offered only in the scenarios marked +relisten")
 			r.Assume("signals are delivered like os/signal does (non-blocking send into the 1-slot channel); a signal raised while the previous one is still in the channel is not modelled (the runtime drops it)")
 		},
 	}
